@@ -82,6 +82,22 @@ func validPool(p *Profile, sch *Schema, rng *rand.Rand, maxSize, ngen int) [][]b
 		s.Data(1, []byte{81})
 		out = append(out, s.Bytes())
 	}
+	// a file_id that leaves its optional fields out (no time_created, no serial
+	// number), in a file full of timestamps: what the file_id says does not
+	// depend on what follows it
+	for k := 0; k < 2; k++ {
+		arch := byte(k)
+		s := newStream(12+2*k, k == 1)
+		s.Def(0, arch, 0, []FieldDef{{0, 1, 0}, {1, 2, 0x84}}, nil)
+		s.Data(0, append([]byte{4}, wire(u16le(1), arch)...))
+		s.Def(1, arch, 20, []FieldDef{{253, 4, 0x86}, {3, 1, 2}}, nil)
+		for r := 0; r < 3; r++ {
+			s.Data(1, append(wire(u32le(0x39200000+uint32(r)), arch), byte(70+r)))
+		}
+		s.Def(2, arch, 34, []FieldDef{{253, 4, 0x86}, {5, 4, 0x86}}, nil)
+		s.Data(2, append(wire(u32le(0x39200010), arch), wire(u32le(0x39200010+3600), arch)...))
+		out = append(out, s.Bytes())
+	}
 	return out
 }
 
